@@ -261,6 +261,12 @@ LockReplace ==
                                  /\ Len(nl) = Cardinality(rs)
                                  /\ {LeafRec(nl[k]).e : k \in DOMAIN nl} = {subs[s].e : s \in rs}
                                  /\ \A k \in DOMAIN nl : LeafRec(nl[k]).ts = e.new.ts)
+                               \* a resubmission adds no leaf: the entries of a round are pairwise
+                               \* distinct, and none of them was acknowledged before on this
+                               \* instance's cache lineage (firstAck is reset by a cache rollback)
+                               \cup F("C07.DupAddsNoLeaf",
+                                      /\ \A k1, k2 \in DOMAIN nl : LeafRec(nl[k1]).e = LeafRec(nl[k2]).e => k1 = k2
+                                      /\ \A k \in DOMAIN nl : LeafRec(nl[k]).e \notin DOMAIN Get(firstAck, i, <<>>))
                           ELSE {})
                   ELSE {})
                  \cup F("C17.AfterStop", ~I(i).stopped)
